@@ -1,3 +1,5 @@
+import Ekit.Conc.LinCheck
+import Ekit.Conc.System
 import Ekit.Generated.Slice
 import Ekit.Go.Basic
 import Ekit.Lemmas.Lists
